@@ -9,6 +9,8 @@ calls by contract.
 import itertools
 import z3
 
+_SEQEQ = itertools.count()
+
 GeoSort = z3.IntSort()   # geo IDs (strings in the code) are integer codes
 ItemSort = z3.DeclareSort('Item')    # heap items (abstract, ordered by lt)
 KeySort = z3.DeclareSort('Key')      # HeapDict keys
@@ -616,7 +618,11 @@ def eq_term(a, b):
   if isinstance(a, VRange) and isinstance(b, VRange):
     return z3.And(a.lo == b.lo, a.hi == b.hi)
   if isinstance(a, VSeq) and isinstance(b, VSeq):
-    raise EngineError('list equality is not modelled')
+    if a.esort != b.esort:
+      return z3.BoolVal(False)
+    i = z3.Int('i!seqeq%d' % next(_SEQEQ))
+    return z3.And(a.length == b.length, z3.ForAll([i], z3.Implies(
+        z3.And(i >= 0, i < a.length), a.at(i) == b.at(i))))
   return z3.BoolVal(False)
 
 
